@@ -688,6 +688,34 @@ func mixedDescriptors(o *e2eOutcome, name, hash string, gen int) bool {
 	return false
 }
 
+// lateOtherVersionPayload: a data request that told the receiver ANOTHER hash for parts of
+// the name was answered after the sender's cache entry had switched to 'hash' and before
+// virtual time vt.  (Its parts then report the new hash to the tracker with the old
+// version's send size: the third face of the in-place cache update.)
+func lateOtherVersionPayload(o *e2eOutcome, name, hash string, gen int, vt time.Duration) bool {
+	switched := time.Duration(-1)
+	for _, e := range o.events {
+		if e.Kind == "cache_add" && e.Name == name && e.S == hash && e.Gen == gen {
+			switched = e.VT
+			break
+		}
+	}
+	if switched < 0 {
+		return false
+	}
+	for _, d := range o.reqs {
+		if d.Class != "data" || d.Gen != gen || d.End <= switched || d.End > vt {
+			continue
+		}
+		for pi, p := range d.Parts {
+			if p.Name == name && p.Hash != hash && pi < len(d.Acked) && d.Acked[pi] {
+				return true
+			}
+		}
+	}
+	return false
+}
+
 // oracleSentLog (C02 / C08): the sender records a version as sent (sent log, hand-over
 // to the poller) only when every byte of it has been acknowledged by the receiver or
 // was reported held by it.  Judged at the moment of the record, against the true
@@ -763,7 +791,7 @@ func oracleSentLog(o *e2eOutcome, v vfn) {
 			fp := "logged-sent-before-fully-transmitted"
 			if sum >= truth {
 				fp = "polled-on-byte-count-with-duplicate-parts" // same root: bytes are added up per name, not ranges
-			} else if mix := covered(append(append([]iv{}, rs...), rsOther...)); mixedDescriptors(o, name, hash, e.Gen) || (e.A != truth && o.w.isVersionSize(name, e.A)) ||
+			} else if mix := covered(append(append([]iv{}, rs...), rsOther...)); mixedDescriptors(o, name, hash, e.Gen) || (e.A != truth && o.w.isVersionSize(name, e.A) && lateOtherVersionPayload(o, name, hash, e.Gen, e.VT)) ||
 				(announcedSend[e.A] && e.A < truth && mix >= e.A) || mix >= truth {
 				// known: the transmission itself mixed two versions (the cache entry a queued
 				// file points to is updated in place when the file is hashed again); the
